@@ -98,6 +98,17 @@ def install(eng):
                          {'Some': {0: Cell(Ref(eng.seq_cell(s.seq, bvadd(s.start, i))))}}, None, ed)
         return EnumV(ctx.dest_ty and norm_ty(ctx.dest_ty) or 'Option', 0, None, None, ed)
     m(r'^core::slice::<impl \[.*\]>::get(_mut)?$', m_slice_get)
+    def m_slice_last(eng, args, ctx):
+        s_ = as_slice(eng, args[0])
+        ln = eng.slice_len(s_)
+        oty = norm_ty(ctx.dest_ty) if ctx.dest_ty else 'Option'
+        if eng.fork_bool(ln == 0):
+            return opt(eng, oty)
+        first = ctx.norm.endswith('first') or ctx.norm.endswith('first_mut')
+        idx = s_.start if first else bvadd(s_.start, bvsub(ln, bv(1, 64)))
+        return opt(eng, oty, Ref(eng.seq_cell(s_.seq, idx)))
+    m(r'^core::slice::<impl \[.*\]>::(last|last_mut|first|first_mut)$', m_slice_last)
+
     def m_get_unchecked(eng, args, ctx):
         s = as_slice(eng, args[0])
         i = args[1]
